@@ -297,7 +297,8 @@ def run_firing_case(w, case, res):
 
     rx = w.reactor
     bad = []
-    firings = []  # (tag, when, queued-by)
+    firings = []  # (tag, when, number of the load it belongs to)
+    load_no = [0]
     info = {'occurrences_checked': 0, 'catchup': 0, 'boot_firings': 0}
     # position the clock (time only moves forward on the shared reactor)
     # the history starts at this absolute instant (sub-second phase included: timers are armed with round())
@@ -329,7 +330,7 @@ def run_firing_case(w, case, res):
                 bad.append(('queued-once', f'{j.tag} appended to the queue twice by one defer() pass at {now}', 'C20/double-queue-entry'))
                 continue
             seen.add(id(j))
-            firings.append((j.tag, now))
+            firings.append((j.tag, now, load_no[0]))
             res.count('firings_checked')
             want = {'__all__'} if kind_of[j.tag] == 'analysis' else set(dawgie.db.targets())
             got = set(j.get('todo'))
@@ -391,6 +392,7 @@ def run_firing_case(w, case, res):
                 gen += 1
                 new = copy.deepcopy(spec)
                 new['pkg'] = f'{spec["pkg"]}_r{gen}'
+                load_no[0] += 1
                 sim.apply({'op': 'reload', 'rev': f'rev{gen}', 'spec': new})
                 loads.append(w.now())
                 res.count('reloads')
@@ -420,22 +422,26 @@ def run_firing_case(w, case, res):
                 info['occurrences_checked'] += len(occ)
                 res.count('occurrences_checked', len(occ))
                 if occ and not all(hit):
-                    # recorded finding: once a node with timer events has been queued (its status
-                    # stays waiting after completion) defer() never considers it again until the next
-                    # (re)load re-arms everything.  A missed occurrence is that finding iff the node
-                    # fired earlier, after the last (re)load that precedes the occurrence.
-                    mech = 'C20/no-refire-after-node-ran'
-                    for m, ok in zip(occ, hit):
-                        if ok:
-                            continue
-                        last_load = max(ld for ld in loads if ld <= m)
-                        if not any(f[0] == tag and last_load <= f[1] < m - datetime.timedelta(seconds=302) for f in firings):
-                            mech = None
+                    # (until fix 5e of /repo - see known_findings.json, C20/no-refire-after-node-ran - a node that had
+                    # run once was never considered again; every missed occurrence is reported now)
                     bad.append(
                         ('fires-each-period',
                          f'{tag} event {ev}: occurrences {[str(o) for o in occ[:5]]} in the horizon, fired for {hit[:5]} '
-                         f'(firings of the node: {[str(f[1]) for f in firings if f[0] == tag][:5]})', mech)
+                         f'(firings of the node: {[str(f[1]) for f in firings if f[0] == tag][:5]})', None)
                     )
+                # and no occurrence is queued twice (the node is drained promptly, so two firings for one moment
+                # would be two runs)
+                for m in occ:
+                    # (a reload rebuilds the schedule and forgets what fired: firings are counted per load)
+                    per_load = {}
+                    for f in firings:
+                        if f[0] == tag and -302 <= (f[1] - m).total_seconds() <= 2:
+                            per_load[f[2]] = per_load.get(f[2], 0) + 1
+                    n = max(per_load.values()) if per_load else 0
+                    others = [e for e in evs if e is not ev and ('dow' in e or 'dom' in e or 'day' in e)]
+                    if n > 1 and not others:
+                        bad.append(('fires-once-per-occurrence', f'{tag} event {ev}: occurrence {m} was queued {n}x (firings {[str(f[1]) for f in firings if f[0] == tag][:6]})', None))
+                        break
     finally:
         w.start_at = 0.0
         sch.defer = orig_defer
